@@ -13,7 +13,7 @@ ASSUMPTIONS = [
 ]
 BOUNDS = {
     "quick": "key_size 1: streams of 1 update after 0 or 1 prior writes and of 2 updates on a fresh tree (all kind combinations); every truncation length 0..8 of one update; update() in isolation (arbitrary branch / update hashes, no tree) for key sizes 1, 2 and 8",
-    "thorough": "key_size 1: all streams of <= 2 updates and three kind patterns of 3 updates; key_size 2: streams of 1 update and two kind patterns of 2 updates, truncation lengths 0..16",
+    "thorough": "key_size 1: streams of <= 2 updates (all kind / length-class combinations on a fresh tree, 33-byte default after one prior write); key_size 2: streams of 1 update, truncation lengths 0..16; update() in isolation up to 16-byte keys. (3-update streams at key_size 1 and 2-update streams at key_size 2 were tried: they exceed a 50-minute budget per obligation and are not run)",
 }
 OUTSIDE = "in-sync-with-a-tree claims for key sizes above 2 (update() in isolation is checked up to 8 / 16 bytes), longer streams, update lists longer than the depth"
 
@@ -41,12 +41,9 @@ def obligations(tier):
             add("truncated update list: accepted iff deep enough, otherwise ValidationError and proof unchanged", "h_proof_trunc", "b_proof_trunc", ks=1, dshape=0, vshape=2, m=m)
     else:
         streams(1, 1, (0, 2), ([], [2]), (0, 2, 33))
-        streams(1, 2, (0, 2), ([], [2]), (0, 2))
-        for kinds in ([False, False, False], [False, True, False], [True, False, False]):
-            add(sync, "h_proof_sync", "b_proof_sync", ks=1, dshape=2, preshapes=[], vshapes=[0 if kd else 2 for kd in kinds], kinds=kinds, t=3000)
+        streams(1, 2, (0, 2), ([],), (0, 2))
+        streams(1, 2, (2,), ([2],), (2,))
         streams(2, 1, (0, 2), ([], [2]), (0, 2))
-        for kinds in ([False, False], [False, True]):
-            add(sync, "h_proof_sync", "b_proof_sync", ks=2, dshape=2, preshapes=[], vshapes=[0 if kd else 2 for kd in kinds], kinds=kinds, t=3000)
         for ks in (1, 2, 4, 8, 16):
             add("update alone (no tree): only the sibling at the first differing bit changes", "h_update_alone", "b_update_alone", ks=ks)
         for ks in (1, 2):
